@@ -24,10 +24,15 @@
      CopyArgs    cmdMinifier copies cmd.Args before substituting $in/$out          (code: TRUE since fix fd040d4;
                  FALSE = the defect fixed there: 2nd call ran on the 1st call's temp file, user's Args overwritten)
      HtmlDep     html option struct has the deprecated KeepConditionalComments set (writes the struct = known defect)
+     LazyInit    a package-level table is built lazily by the first call that needs it
+                 ("if table == nil { make; fill }" without synchronisation)              (code: FALSE; the js
+                 renamer copies js.Keywords into a per-call map).  First access = write, a second goroutine
+                 starting cold at the same moment sees the table half filled.  Only a COLD process shows it:
+                 any completed earlier call (e.g. a reference call) has filled the table
      AllowReg    Add* concurrent with use: documented as unsupported, OUTSIDE the property            *)
 EXTENDS Integers, Sequences, FiniteSets, TLC, Json, SequencesExt
 
-CONSTANTS NG, MaxCalls, ShapeNames, AllowReg, CopyOpts, TightCap, CopyArgs, HtmlDep
+CONSTANTS NG, MaxCalls, ShapeNames, AllowReg, CopyOpts, TightCap, CopyArgs, HtmlDep, LazyInit
 
 G == 1 .. NG
 Iota(n) == [i \in 1 .. n |-> i]      \* <<1, ..., n>> for the eager folds
@@ -74,7 +79,8 @@ Cat == [
   gate    |-> Leaf("gate", FALSE),                                   \* user minifier that parks (literal)
   gatere  |-> Leaf("gatere", FALSE),                                 \* the same, served by a pattern
   cmd     |-> Leaf("cmd", FALSE),                                    \* AddCmd / AddCmdRegexp, stdin/stdout
-  cmdin   |-> Leaf("cmdin", FALSE),                                  \* AddCmd with $in placeholder
+  cmdin   |-> Leaf("cmdin", FALSE),                                  \* AddCmd with $in / $in $out placeholders
+  cmdout  |-> Leaf("cmdin", FALSE),                                  \* ... with $out only (stdin in, result file out)
   none    |-> Leaf("none", FALSE),                                   \* no minifier registered
   \* stream wrappers stalled by the user: the worker is parked inside the REAL minifier
   cssH    |-> Hold(Leaf("css", FALSE)),
@@ -136,6 +142,7 @@ InitS == [ st   |-> [g \in G |-> <<>>],          \* call stack of goroutine g (t
            opt  |-> [mt \in {"css", "svg", "html"} |-> FALSE],   \* shared option structs (Inline / mutated flag)
            pkg  |-> Tmpl,                        \* backing array of the package-level append bases
            args |-> Tmpl,                        \* exec.Cmd.Args of the registered command
+           lazy |-> Tmpl,                        \* lazily built package-level table: Tmpl = nil, <<g, 1>> = g is filling it, <<g, 2>> = complete
            acc  |-> {},                          \* every kind of access to a shared location taken so far
            wr   |-> {},                          \* writes to shared locations by use calls
            bad  |-> {} ]                         \* calls whose result differs from the sequential one
@@ -219,7 +226,14 @@ Do(t, g) ==
                    THEN AfterEnter([Wr(t1, "args", g) EXCEPT !.args = me], g, [f EXCEPT !.ar = me])
                    ELSE AfterEnter(t1, g, [f EXCEPT !.ar = t.args])     \* no $in left: runs on the other call's file
               ELSE AfterEnter(t1, g, [f EXCEPT !.ar = IF mt = "cmdin" THEN me ELSE Tmpl])
+         ELSE IF mt = "js" /\ LazyInit THEN                \* if table == nil { table = make(...); fill } ; use table
+           LET t1 == Acc(Acc(t, "opt", "r"), "lazy", "r")
+           IN IF t.lazy = Tmpl
+              THEN SetTop([Wr(t1, "lazy", g) EXCEPT !.lazy = << g, 1 >>], g, [f EXCEPT !.inl = f.node.inl, !.pc = "lazyfill"])
+              ELSE AfterEnter(t1, g, [f EXCEPT !.inl = f.node.inl, !.pk = IF t.lazy[2] = 2 THEN "own" ELSE "foreign"])   \* half filled: wrong names
          ELSE AfterEnter(Acc(t, "opt", "r"), g, [f EXCEPT !.inl = f.node.inl])   \* js, json, xml, user functions: params are private
+    [] f.pc = "lazyfill" ->                              \* the table is complete
+         AfterEnter([Wr(t, "lazy", g) EXCEPT !.lazy = << g, 2 >>], g, f)
     [] f.pc = "body" ->                                  \* append(urlBytes, ...): reads the base, writes it iff cap > len
          LET t1 == Acc(t, "pkg", "r")
          IN IF TightCap THEN SetTop(t1, g, [f EXCEPT !.pc = "runlock"])
